@@ -26,6 +26,23 @@ pub fn unhex(t: &str) -> String {
 }
 #[derive(Debug, PartialEq, Eq, Clone, Default, Hash)]
 pub struct Cg<const N: usize>;
+/// a field type whose INHERENT functions are named like trait methods and answer differently: generated code must reach
+/// `Default` / `Clone` / `PartialEq` / `Display` through the traits
+#[derive(Debug, Hash, Eq)]
+pub struct Host(pub u8);
+impl Default for Host { fn default() -> Self { Host(3) } }
+impl Clone for Host { fn clone(&self) -> Self { Host(self.0) } }
+impl PartialEq for Host { fn eq(&self, o: &Self) -> bool { self.0 == o.0 } }
+impl core::fmt::Display for Host { fn fmt(&self, f: &mut core::fmt::Formatter) -> core::fmt::Result { write!(f, "host{}", self.0) } }
+impl Host {
+    pub fn default() -> Self { Host(255) }
+    pub fn clone(&self) -> Self { Host(254) }
+    pub fn eq(&self, _o: &Self) -> bool { false }
+    pub fn ne(&self, _o: &Self) -> bool { true }
+    pub fn fmt(&self, _f: &mut core::fmt::Formatter) -> core::fmt::Result { Err(core::fmt::Error) }
+    pub fn into(self) -> u8 { 253 }
+    pub fn as_ref(&self) -> &'static str { "inherent" }
+}
 /// a type WITHOUT `Default`: instantiates type parameters that only occur inside `Option<T>`
 #[derive(Debug, PartialEq, Eq, Clone, Hash)]
 pub struct NoDef(pub u8);
@@ -185,6 +202,23 @@ impl core::fmt::Display for Cap {
 impl AsRef<str> for Cap { fn as_ref(&self) -> &str { core::str::from_utf8(&self.buf[..self.len]).unwrap_or("?") } }
 #[derive(Debug, PartialEq, Clone, Default, Hash, Eq)]
 pub struct Cg<const N: usize>;
+/// a field type whose INHERENT functions are named like trait methods and answer differently: generated code must reach
+/// `Default` / `Clone` / `PartialEq` / `Display` through the traits
+#[derive(Debug, Hash, Eq)]
+pub struct Host(pub u8);
+impl Default for Host { fn default() -> Self { Host(3) } }
+impl Clone for Host { fn clone(&self) -> Self { Host(self.0) } }
+impl PartialEq for Host { fn eq(&self, o: &Self) -> bool { self.0 == o.0 } }
+impl core::fmt::Display for Host { fn fmt(&self, f: &mut core::fmt::Formatter) -> core::fmt::Result { write!(f, "host{}", self.0) } }
+impl Host {
+    pub fn default() -> Self { Host(255) }
+    pub fn clone(&self) -> Self { Host(254) }
+    pub fn eq(&self, _o: &Self) -> bool { false }
+    pub fn ne(&self, _o: &Self) -> bool { true }
+    pub fn fmt(&self, _f: &mut core::fmt::Formatter) -> core::fmt::Result { Err(core::fmt::Error) }
+    pub fn into(self) -> u8 { 253 }
+    pub fn as_ref(&self) -> &'static str { "inherent" }
+}
 #[derive(Debug, PartialEq, Eq, Clone, Hash)]
 pub struct NoDef(pub u8);
 #[derive(Debug, PartialEq, Clone)]
@@ -391,6 +425,16 @@ class EnumGen:
         out.append('}')
         if via:
             out.append('}')
+        # (the private-field probe of EnumTable has to live in the module that defines the struct)
+        if not self.defs_only and not e.extra.get('no_home') and not e.extra.get('table_fields'):
+            k = len(e.extra.get('pre_items', [])) + len(self.dw_fns())
+            lt = e.extra.get('lt_name', 'a')
+            body = out[k:]
+            if lt != 'a':
+                import re as _re
+                body = [_re.sub(r"'a\b", "'" + lt, l) for l in body]
+            head = ['mod home {', '#[allow(unused_imports)] use super::*;']
+            out = out[:k] + head + body + ['}', '#[allow(unused_imports)] use home::*;']
         out.append('pub type Inst = %s%s;' % (e.name, self.ginst))
         if e.err and self.err_form() == 'assoc':
             out.append('impl%s %s%s%s { pub fn perr_assoc(s: &str) -> PErr { perr(s) } }' % (self.gdecl_nodefault(), e.name, self.gargs(), self.gwhere))
@@ -723,7 +767,9 @@ class EnumGen:
         return out, [('count', 'op_count')]
 
     def feat_vnames(self):
-        out = ['fn op_variants(a: &[&str]) -> String {',
+        out = ['mod only_variant_names { use super::Inst; #[allow(unused_imports)] use %s::VariantNames; pub fn get() -> &\'static [&\'static str] { Inst::VARIANTS } }' % self.sp,
+               'fn op_variants(a: &[&str]) -> String {',
+               '    if only_variant_names::get() != <Inst as %s::VariantNames>::VARIANTS { return "DIVERGE-by-import".to_string(); }' % self.sp,
                '    let v: &[&str] = <Inst as %s::VariantNames>::VARIANTS;' % self.sp,
                '    let mut o = vec![format!("n={}", v.len())];',
                '    for s in v { o.push(hex(s.as_bytes())); }',
@@ -732,7 +778,9 @@ class EnumGen:
         return out, [('variants', 'op_variants')]
 
     def feat_varray(self):
-        out = ['fn op_varray(a: &[&str]) -> String {',
+        out = ['mod only_variant_array { use super::Inst; #[allow(unused_imports)] use %s::VariantArray; pub fn get() -> &\'static [Inst] { Inst::VARIANTS } }' % self.sp,
+               'fn op_varray(a: &[&str]) -> String {',
+               '    if only_variant_array::get().len() != <Inst as %s::VariantArray>::VARIANTS.len() { return "DIVERGE-by-import".to_string(); }' % self.sp,
                '    let v: &[Inst] = <Inst as %s::VariantArray>::VARIANTS;' % self.sp,
                '    let mut o = vec![format!("n={}", v.len())];',
                '    for x in v { o.push(ident_of(x).to_string()); }',
@@ -879,6 +927,8 @@ class EnumGen:
                '    let b = match v.get_bool(&key) { Some(true) => "1", Some(false) => "0", None => "-" };',
                '    // the same through `&&E` receivers (closures over slice iterators) and through a generic bound',
                '    let rr = &&v;',
+               '    // .. and through a trait object (the trait is dyn-compatible)',
+               '    { let d: &dyn %s::EnumProperty = &v; if (d.get_str(&key), d.get_int(&key), d.get_bool(&key)) != (v.get_str(&key), v.get_int(&key), v.get_bool(&key)) { return "DIVERGE-by-dyn".to_string(); } }' % sp,
                '    fn via_bound<P: %s::EnumProperty>(p: &P, k: &str) -> (Option<&\'static str>, Option<i64>, Option<bool>) { (p.get_str(k), p.get_int(k), p.get_bool(k)) }' % sp,
                '    if (rr.get_str(&key), rr.get_int(&key), rr.get_bool(&key)) != (v.get_str(&key), v.get_int(&key), v.get_bool(&key)) || via_bound(&v, &key) != (v.get_str(&key), v.get_int(&key), v.get_bool(&key)) { return "DIVERGE-by-receiver".to_string(); }',
                '    format!("str={} int={} bool={}", s, i, b)',
@@ -899,6 +949,9 @@ class EnumGen:
                 'struct NotClone(i64);',
                 'fn _table_of_non_clone() -> i64 { let t = %s::new(%s); let t = t.transform(|_, v| NotClone(v.0 + 1)); let u = %s::from_closure(|k| NotClone(decl_index(&k))); %s }'
                 % (TB, ', '.join('NotClone(%d)' % i for i in range(len(en))), TB, ' + '.join(['0'] + ['t[%s::%s].0 + u[%s::%s].0' % (n, v.ident, n, v.ident) for v in en])),
+                # the generic parameters of `from_closure` / `transform` are part of the signature: callers may name them
+                'fn _table_turbofish() -> i64 { let t = %s::<i64>::from_closure::<fn(Inst) -> i64>(|_k| 4); let u = t.transform::<i64, fn(Inst, &i64) -> i64>(|_k, v| *v + 1); %s }'
+                % (TB, ' + '.join(['0'] + ['u[%s::%s]' % (n, v.ident) for v in en])),
                 'fn op_table(a: &[&str]) -> String {',
                 '    let mut t: %s<i64> = %s::filled(0);' % (TB, TB),
                 '    let mut out: Vec<String> = Vec::new();',
